@@ -31,15 +31,15 @@ const otherBucket = platform.ID(0x3000)
 // scenario of the concurrency clause: data, a delete that will be held open, and two batches of
 // writes that do not conflict with it.
 type scenario struct {
-	Hours    int      `json:"hours"`
-	Series   []string `json:"series"`
-	Load     []wpoint `json:"load"`
-	Min      int64    `json:"min"`
-	Max      int64    `json:"max"`
-	Pred     pred     `json:"pred"`
-	MExpr    bool     `json:"measurement_expr"`
-	Other    []wpoint `json:"writes_other_bucket"`  // any time, also inside [min,max]
-	Outside  []wpoint `json:"writes_outside_range"` // same bucket, every time outside [min,max]
+	Hours   int      `json:"hours"`
+	Series  []string `json:"series"`
+	Load    []wpoint `json:"load"`
+	Min     int64    `json:"min"`
+	Max     int64    `json:"max"`
+	Pred    pred     `json:"pred"`
+	MExpr   bool     `json:"measurement_expr"`
+	Other   []wpoint `json:"writes_other_bucket"`  // any time, also inside [min,max]
+	Outside []wpoint `json:"writes_outside_range"` // same bucket, every time outside [min,max]
 	// Warm: points written after the snapshots, so that every shard's cache is non-empty while the
 	// delete runs. Without them (cold shards) the write path takes Store.WriteToShard -> Shard.IsIdle
 	// -> FileStore.Stats, which needs the FileStore write lock (known finding, see known_test.go).
